@@ -85,6 +85,44 @@ theorem stakeAt_removeMiner_frame (cfg : Cfg) (st : State) (id acc : Bytes) (t l
   · simp only [stakeAt_write, slotStake, slotAcct, slotStatus, h3, and_false, if_false]
     rcases hne with h | h <;> simp [h]
 
+theorem stakeAt_refundApply (cfg : Cfg) (st : State) (id src : Bytes) (m : Miner) (money : Nat) (d : DbId) (j : Bytes) :
+    stakeAt cfg (refundApply cfg st id src m money) d j = stakeAt cfg (refundCore cfg st id src m money) d j := rfl
+
+theorem stakeAt_refundCore_self (cfg : Cfg) (st : State) (src : Bytes) (m : Miner) (money : Nat) (hu : Untouched cfg m.id m.id) :
+    stakeAt cfg (refundCore cfg st m.id src m money) (dbOfType m.typ) m.id = (m.stake - money) % 2 ^ 64 := by
+  unfold refundCore
+  split
+  · exact stakeAt_removeMiner_self cfg _ _ _ _ _ hu
+  · exact stakeAt_updateMiner_self cfg st { m with stake := m.stake - money } hu
+
+theorem stakeAt_refundCore_frame (cfg : Cfg) (st : State) (src : Bytes) (m : Miner) (money : Nat) (d : DbId) (j : Bytes)
+    (hu : Untouched cfg m.id j) (hne : cfg.H j ≠ cfg.H m.id) :
+    stakeAt cfg (refundCore cfg st m.id src m money) d j = stakeAt cfg st d j := by
+  unfold refundCore
+  split
+  · exact stakeAt_removeMiner_frame cfg _ _ _ _ _ d j hu (Or.inr hne)
+  · exact stakeAt_updateMiner_frame cfg st { m with stake := m.stake - money } none d j hu (Or.inr hne)
+
+theorem stakeAt_addStakeApply_self (cfg : Cfg) (st : State) (p : Bytes) (m : Miner) (delta : Nat) (hu : Untouched cfg m.id m.id) :
+    stakeAt cfg (addStakeApply cfg st p m delta) (dbOfType m.typ) m.id = (m.stake + delta) % 2 ^ 64 := by
+  unfold addStakeApply
+  have := stakeAt_updateMiner_self cfg (st.subBal p (stakeWei delta))
+    { m with stake := (m.stake + delta) % 2 ^ 64,
+             status := if reactivates m.typ ((m.stake + delta) % 2 ^ 64) then statusNormal else m.status } hu
+  simp only at this ⊢
+  rw [this, Nat.mod_mod]
+
+theorem stakeAt_addStakeApply_frame (cfg : Cfg) (st : State) (p : Bytes) (m : Miner) (delta : Nat) (d : DbId) (j : Bytes)
+    (hu : Untouched cfg m.id j) (hne : cfg.H j ≠ cfg.H m.id) :
+    stakeAt cfg (addStakeApply cfg st p m delta) d j = stakeAt cfg st d j := by
+  unfold addStakeApply
+  have := stakeAt_updateMiner_frame cfg (st.subBal p (stakeWei delta))
+    { m with stake := (m.stake + delta) % 2 ^ 64,
+             status := if reactivates m.typ ((m.stake + delta) % 2 ^ 64) then statusNormal else m.status } none d j hu (Or.inr hne)
+  simp only at this ⊢
+  rw [this]
+  exact stakeAt_of_live cfg st _ rfl d j
+
 /-! ### what success of each executor means -/
 
 theorem addMiner_ok (cfg : Cfg) (st : State) (p : Bytes) (i : Info) (s : Nat) (a : Bytes)
